@@ -202,6 +202,14 @@ def check(eng, res):
     for r in rets:
         member(eng, res, Po, r, r.value)
         complete_guard(eng, res, Po, r, r.value, "R-MEMBER")
+    # a component instance is the molecule with *all* its elements generated (shared with C06)
+    from . import c06
+
+    sub = type(res)(res.prop)
+    c06.elem_order(eng, sub)
+    for o in sub.obligations:
+        o.rule = "R-MEMBER"
+        res.obligations.append(o)
     # system_mass accessor: value of the components' system mass, refusing a non-generable system
     sm = eng.prog.cls("System").method("system_mass")
     if sm is not None:
